@@ -154,10 +154,16 @@ E_Stat ==
             cur' = nxt /\ pc' = (IF ChkFinal THEN "fin1" ELSE "fin_ok") /\ UNCHANGED <<ntrav, res>>
        ELSE IF op.nosym THEN
             Finish(Err("ELOOP")) /\ UNCHANGED <<cur, ntrav>>
-       ELSE IF ntrav + 1 >= EmuMaxLinks THEN
-            Finish(Err("ELOOP")) /\ ntrav' = ntrav + 1 /\ UNCHANGED cur
-       ELSE ntrav' = ntrav + 1 /\ pc' = "readlink" /\ UNCHANGED <<cur, res>>
+       ELSE pc' = "mayfollow" /\ UNCHANGED <<cur, ntrav, res>>
     /\ UNCHANGED <<exp, rem, nxt, part, rootPath, retries>>
+
+\* may_follow_link (fs.protected_symlinks: two fstat calls, trailing links only -- its verdict is the
+\* subject of Psl.tla; trees of this model have link owner = caller) and then the link budget   imp.rs:360-383
+E_Budget ==
+    /\ pc = "mayfollow" /\ backend = "emulated"
+    /\ ntrav' = ntrav + 1
+    /\ IF ntrav + 1 >= EmuMaxLinks THEN Finish(Err("ELOOP")) ELSE pc' = "readlink" /\ UNCHANGED res
+    /\ UNCHANGED <<cur, exp, rem, nxt, part, rootPath, retries>>
 
 \* readlinkat(next, "") -- the body of the *opened* inode     imp.rs:385-445
 E_Readlink ==
@@ -224,7 +230,7 @@ K_Openat2 ==
     /\ UNCHANGED <<cur, exp, rem, ntrav, nxt, part, rootPath>>
 
 LibStep ==
-    \/ E_Start \/ E_Classify \/ E_OpenNext \/ E_DD1 \/ E_DD2 \/ E_DD3 \/ E_Stat \/ E_Readlink
+    \/ E_Start \/ E_Classify \/ E_OpenNext \/ E_DD1 \/ E_DD2 \/ E_DD3 \/ E_Stat \/ E_Budget \/ E_Readlink
     \/ E_Fin1 \/ E_Fin2 \/ E_Fin3 \/ E_Done \/ K_Openat2
 
 (***************************************************************************)
@@ -305,7 +311,7 @@ Bounded == nsteps <= StepBound
 Contained ==
     (pc = "done" /\ res.ok) => res.ino \in everIn
 
-TypeOK == pc \in {"start", "loop", "open", "dd1", "dd2", "dd3", "stat", "readlink", "fin1", "fin2", "fin3", "fin_ok", "done"}
+TypeOK == pc \in {"start", "loop", "open", "dd1", "dd2", "dd3", "stat", "mayfollow", "readlink", "fin1", "fin2", "fin3", "fin_ok", "done"}
 
 (***************************************************************************)
 (* Case export: one JSON line per explored (tree, path, op) with the       *)
